@@ -81,6 +81,12 @@ DIRECTED_UNIVERSE = {
                 _dt(["dirx"], "Axle", 1, 0, [_df("wheels", {"t": "farr", "elem": _dref("dirx.parts.Wheel"), "n": 2}), _df("locked", {"t": "farr", "elem": {"t": "bool"}, "n": 12})]),
                 _dt(["dirx"], "Axle", 2, 0, [_df("tyres", {"t": "varr", "elem": _dref("dirx.parts.Tyre"), "cap": 2, "incl": True})]),
                 _dt(["dirx"], "Axle", 2, 1, [_df("tyres", {"t": "varr", "elem": _dref("dirx.parts.Tyre"), "cap": 2, "incl": True})]),
+                # versions of one type whose digits read the same when written without a separator (1.10 / 11.0 / 1.1 with 10.x)
+                _dt(["dirx"], "Gauge", 1, 10, [_df("a", _U8)]),
+                _dt(["dirx"], "Gauge", 11, 0, [_df("b", {"t": "uint", "bits": 16, "cast": "saturated"}), _df("t", _dref("dirx.parts.Tyre"))]),
+                _dt(["dirx"], "Gauge", 1, 1, [_df("a", _U8)]),
+                _dt(["dirx"], "Gauge", 110, 0, [_df("c", {"t": "bool"})]),
+                _dt(["dirx"], "Panel", 1, 0, [_df("g1", _dref("dirx.Gauge", 1, 10)), _df("g2", _dref("dirx.Gauge", 11, 0)), _df("g3", _dref("dirx.Gauge", 110, 0)), _df("g4", _dref("dirx.Gauge", 1, 1))]),
                 _dt(["dirx", "deep", "er"], "Either", 1, 0, [_df("old", _dref("dirx.Axle", 1, 0)), _df("new", _dref("dirx.Axle", 2, 0)), _df("n", _U8)], union=True),
                 _dt(["dirx"], "Car", 1, 0, [_df("front", _dref("dirx.Axle", 2, 1)), _df("rear", _dref("dirx.Axle", 1, 0)), _df("e", _dref("dirx.deep.er.Either"))], sealed=False),
                 {"ns": ["dirx"], "name": "Inspect", "major": 1, "minor": 0, "port_id": None, "kind": "service", "deprecated": False, "doc": [],
@@ -343,6 +349,71 @@ class Env:
             self.model[mk] = self.api_calls(keys, lang, [omit])[0]
         return self.model[mk]
 
+    _UNSHARE_OK: typing.Optional[bool] = None
+
+    def prefetch_models(self, cfgs: typing.List[dict], jobs: int = 12) -> int:
+        """
+        The per-type model runs (dependency closure of ONE type, fresh process) are independent of each other: run them in
+        parallel, each in a private mount namespace in which its own input / output directories are bind-mounted onto the
+        canonical absolute paths (so that every model run sees exactly the paths a sequential run sees).  Falls back to the lazy
+        sequential computation when mount namespaces are not available.
+        """
+        import concurrent.futures
+        import subprocess
+
+        if Env._UNSHARE_OK is None:
+            try:
+                Env._UNSHARE_OK = subprocess.run(["unshare", "-m", "true"], capture_output=True, timeout=20).returncode == 0
+            except (OSError, subprocess.SubprocessError):
+                Env._UNSHARE_OK = False
+        if not Env._UNSHARE_OK:
+            return 0
+        todo = [(k, c) for c in cfgs for k in self.order if (self.vi, k, c["name"]) not in self.model]
+        if not todo:
+            return 0
+        can_in, can_out = self.tmp / "in", self.tmp / "out"
+        shutil.rmtree(can_in, ignore_errors=True)
+        shutil.rmtree(can_out, ignore_errors=True)
+        can_in.mkdir()
+        can_out.mkdir()
+        base = self.tmp / "prefetch"
+        shutil.rmtree(base, ignore_errors=True)
+
+        def one(i_kc):
+            i, (key, cfg) = i_kc
+            d = base / str(i)
+            for k in self.closure([key]):
+                td = self.types[k]
+                f = d / "in" / dsdlgen.typedef_relpath(td)
+                f.parent.mkdir(parents=True, exist_ok=True)
+                f.write_text(dsdlgen.typedef_text(td))
+            (d / "out").mkdir(parents=True, exist_ok=True)
+            argv = self.argv(cfg, can_in / self.root["name"], can_out)
+            env = dict(os.environ, PYTHONHASHSEED="0", PYTHONDONTWRITEBYTECODE="1", PYTHONPATH=str(core.REPO / "src"))
+            env.pop("DSDL_INCLUDE_PATH", None)
+            inner_cmd = [tool.PY, tool.WRAP, "--fake-time", repr(float(FAKE_T)), "--"] + [str(a) for a in argv]
+            script = 'mount --bind "$1" "$2" && mount --bind "$3" "$4" && shift 4 && exec "$@"'
+            p = subprocess.run(["unshare", "-m", "sh", "-c", script, "sh", str(d / "in"), str(can_in), str(d / "out"), str(can_out)] + inner_cmd,
+                               capture_output=True, text=True, env=env, timeout=600)
+            files = tool.tree_files(d / "out") if p.returncode == 0 else {}
+            shutil.rmtree(d, ignore_errors=True)
+            return key, cfg, p.returncode, files, p.stderr
+
+        n = 0
+        with concurrent.futures.ThreadPoolExecutor(max_workers=jobs) as ex:
+            for key, cfg, rc, files, se in ex.map(one, enumerate(todo)):
+                self.runs += 1
+                if rc != 0:
+                    continue  # left to the lazy path, which reports the failure with its context
+                blob = files.get(self.rel_file(key, cfg))
+                if blob is not None:
+                    self.model[(self.vi, key, cfg["name"])] = blob
+                    n += 1
+        shutil.rmtree(base, ignore_errors=True)
+        shutil.rmtree(can_in, ignore_errors=True)
+        shutil.rmtree(can_out, ignore_errors=True)
+        return n
+
     def model_bytes(self, key: str, cfg: dict) -> typing.Optional[bytes]:
         mk = (self.vi, key, cfg["name"])
         if mk not in self.model:
@@ -491,6 +562,10 @@ def make_machine(ctx: core.Ctx, configs: typing.List[dict]):
         def setup(self, u, pick, do):
             # the same token as attribute name and as namespace (path) component -- a stropping-memo trap
             self.env = Env(coincide(u, pick) if (do or pick % 2) else u)
+            for vi in range(len(self.env.variants)):
+                self.env.select(vi)
+                ctx.event("model_runs_prefetched_in_parallel", self.env.prefetch_models(configs))
+            self.env.select(0)
             if len(self.env.variants) > 1:
                 # directed prologue: revision 0, revision 1, revision 0 of the namespace in this interpreter
                 cfg = ["c", "cpp", "py"][pick % 3]
@@ -655,6 +730,7 @@ def run(ctx: core.Ctx):
     m = machine()
     m.env = Env(DIRECTED_UNIVERSE)
     try:
+        ctx.event("model_runs_prefetched_in_parallel", m.env.prefetch_models([c for c in CONFIGS if c["name"] in ("c", "c+supns", "cpp", "cpp+supns", "py", "user+limit1")]))
         nkeys = len(m.env.order)
         axles = [i for i, k in enumerate(m.env.order) if ".Axle." in k]
         for cfg in ("c", "c+supns", "cpp", "cpp+supns", "py", "user+limit1"):
